@@ -161,9 +161,18 @@ static void Array_Push(var self, var obj);
 static void Array_Assign(var self, var obj) {
   struct Array* a = self;
 
+  /* look at the source before the old contents are given up */
+  var type = implements_method(obj, Iter, iter_type) ? iter_type(obj) : Ref;
+  
+  if (not (implements_method(obj, Len, len) and implements_method(obj, Get, get))
+  and not implements_method(obj, Iter, iter_init)) {
+    throw(ClassError, "Cannot assign to Array from '%s', it is not iterable", type_of(obj));
+    return;
+  }
+  
   Array_Clear(self);
   
-  a->type = implements_method(obj, Iter, iter_type) ? iter_type(obj) : Ref;
+  a->type = type;
   a->tsize = Array_Size_Round(size(a->type));
   a->nitems = 0;
   a->nslots = 0;
